@@ -1698,3 +1698,192 @@ Proof.
   rewrite !andb_true_iff, !dopts_eq_iff, opt_text_eq_iff by auto.
   rewrite (list_eq2_iff change_eq change_same (change_all keys_unique (fun _ => true))); auto using change_eq_iff. tauto.
 Qed.
+
+(* ---- C19_perturb: any single change of an option or of a content makes the trees unequal ---- *)
+Lemma list_eq2_upd : forall {A} (eq : A -> A -> bool) i (f : A -> res A) l l', upd_nth i f l = Some (Ok l') ->
+  (forall x y, nth_error l i = Some x -> f x = Ok y -> eq x y = false) -> list_eq2 eq l l' = false.
+Proof.
+  induction i as [|i IH]; intros f [|x l] l' H E; cbn in H; try discriminate.
+  - injection H as H. inv_bind H. injection H as <-. cbn. rewrite (E x x0); auto.
+  - destruct (upd_nth i f l) as [r|] eqn:U; try discriminate. injection H as H. inv_bind H. injection H as <-. subst r.
+    cbn. rewrite (IH f l x0); auto. apply andb_false_r.
+Qed.
+
+Definition cond_opt (k : bytes) (new : wv) (o : dopts) : Prop :=
+  match assoc_get beq k o with Some old => wv_eq old new = false | None => True end.
+Lemma dopts_eq_perturb : forall o k new, cond_opt k new o -> dopts_eq o (oput k new o) = false.
+Proof. intros. rewrite dopts_eq_dict. apply (dict_eqb_perturb beq beq_eq wv_eq). exact H. Qed.
+
+(* the options dict of the section addressed by (path, section selector) *)
+Definition opts_at (p : path) (s : secsel) (t : dtree) : option dopts :=
+  match p with
+  | PMain => match s with SSelf => Some (d_opts t) | SPre => Some (p_opts (d_pre t)) | SMeta => Some (m_opts (d_meta t)) | SDiff => None end
+  | PChange ci =>
+      match nth_error (d_changes t) ci with
+      | Some c => match s with SSelf => Some (c_opts c) | SPre => Some (p_opts (c_pre c)) | SMeta => Some (m_opts (c_meta c)) | SDiff => None end
+      | None => None
+      end
+  | PFile ci fi =>
+      match nth_error (d_changes t) ci with
+      | Some c => match nth_error (c_files c) fi with
+                  | Some f => match s with SSelf => Some (f_opts f) | SMeta => Some (m_opts (f_meta f)) | SDiff => Some (x_opts (f_diff f)) | SPre => None end
+                  | None => None
+                  end
+      | None => None
+      end
+  end.
+
+Ltac kill_andb := rewrite ?andb_false_r; reflexivity.
+
+Lemma on_change_neq : forall ci g t t', on_change ci g t = Some (Ok t') ->
+  (forall c c', nth_error (d_changes t) ci = Some c -> g c = Ok c' -> change_eq c c' = false) -> tree_eq t t' = false.
+Proof.
+  intros ci g t t' H E. unfold on_change in H. destruct (upd_nth ci g (d_changes t)) as [r|] eqn:U; try discriminate.
+  injection H as H. inv_bind H. injection H as <-. subst r. unfold tree_eq. cbn.
+  rewrite (list_eq2_upd change_eq _ _ _ _ U E). apply andb_false_r.
+Qed.
+Lemma on_file_neq : forall ci fi g t t', on_file ci fi g t = Some (Ok t') ->
+  (forall c f f', nth_error (d_changes t) ci = Some c -> nth_error (c_files c) fi = Some f -> g f = Ok f' -> file_eq f f' = false) ->
+  tree_eq t t' = false.
+Proof.
+  intros ci fi g t t' H E. unfold on_file in H. eapply on_change_neq; eauto.
+  intros c c' N G. cbv beta in G. destruct (upd_nth fi g (c_files c)) as [r|] eqn:U; try discriminate.
+  inv_bind G. injection G as <-. subst r. unfold change_eq. cbn.
+  rewrite (list_eq2_upd file_eq _ _ _ _ U (E c N)). apply andb_false_r.
+Qed.
+
+Theorem C19_perturb_option : forall p s k new t t' o,
+  opt_put_at p s k new t = Some (Ok t') -> opts_at p s t = Some o -> cond_opt k new o -> tree_eq t t' = false.
+Proof.
+  intros p s k new t t' o H O C. destruct p as [|ci|ci fi]; destruct s; cbn in H, O; try discriminate.
+  - injection H as <-. injection O as <-. unfold tree_eq; cbn. rewrite dopts_eq_perturb; auto.
+  - injection H as <-. injection O as <-. unfold tree_eq, psec_eq; cbn. rewrite dopts_eq_perturb; auto. kill_andb.
+  - injection H as <-. injection O as <-. unfold tree_eq, msec_eq; cbn. rewrite dopts_eq_perturb; auto. kill_andb.
+  - eapply on_change_neq; eauto. intros c c' N G. rewrite N in O. injection O as <-. injection G as <-.
+    unfold change_eq; cbn. rewrite dopts_eq_perturb; auto.
+  - eapply on_change_neq; eauto. intros c c' N G. rewrite N in O. injection O as <-. injection G as <-.
+    unfold change_eq, psec_eq; cbn. rewrite dopts_eq_perturb; auto. kill_andb.
+  - eapply on_change_neq; eauto. intros c c' N G. rewrite N in O. injection O as <-. injection G as <-.
+    unfold change_eq, msec_eq; cbn. rewrite dopts_eq_perturb; auto. kill_andb.
+  - eapply on_file_neq; eauto. intros c f f' N M G. rewrite N, M in O. injection O as <-. injection G as <-.
+    unfold file_eq; cbn. rewrite dopts_eq_perturb; auto.
+  - eapply on_file_neq; eauto. intros c f f' N M G. rewrite N, M in O. injection O as <-. injection G as <-.
+    unfold file_eq, msec_eq; cbn. rewrite dopts_eq_perturb; auto. kill_andb.
+  - eapply on_file_neq; eauto. intros c f f' N M G. rewrite N, M in O. injection O as <-. injection G as <-.
+    unfold file_eq, dsec_eq; cbn. rewrite dopts_eq_perturb; auto. kill_andb.
+Qed.
+
+(* metadata: obj.meta[key] = new *)
+Definition meta_at (p : path) (t : dtree) : option (list (text * json)) :=
+  match p with
+  | PMain => Some (m_content (d_meta t))
+  | PChange ci => match nth_error (d_changes t) ci with Some c => Some (m_content (c_meta c)) | None => None end
+  | PFile ci fi => match nth_error (d_changes t) ci with
+                   | Some c => match nth_error (c_files c) fi with Some f => Some (m_content (f_meta f)) | None => None end
+                   | None => None
+                   end
+  end.
+Definition cond_meta (k : text) (new : json) (m : list (text * json)) : Prop :=
+  match assoc_get teq k m with Some old => json_eq old new = false | None => True end.
+Lemma msec_eq_perturb : forall m k new, cond_meta k new (m_content m) -> msec_eq m (mput k new m) = false.
+Proof.
+  intros m k new C. unfold msec_eq, mput. cbn [m_opts m_content]. rewrite json_eq_obj.
+  rewrite (dict_eqb_perturb teq teq_eq json_eq); auto. apply andb_false_r.
+Qed.
+Theorem C19_perturb_meta : forall p k new t t' m,
+  meta_put_at p k new t = Some (Ok t') -> meta_at p t = Some m -> cond_meta k new m -> tree_eq t t' = false.
+Proof.
+  intros p k new t t' m H O C. destruct p as [|ci|ci fi]; cbn in H, O.
+  - injection H as <-. injection O as <-. unfold tree_eq; cbn [d_opts d_pre d_meta d_changes]. rewrite msec_eq_perturb; auto. kill_andb.
+  - eapply on_change_neq; eauto. intros c c' N G. rewrite N in O. injection O as <-. injection G as <-.
+    unfold change_eq; cbn [c_opts c_pre c_meta c_files]. rewrite msec_eq_perturb; auto. kill_andb.
+  - eapply on_file_neq; eauto. intros c f f' N M G. rewrite N, M in O. injection O as <-. injection G as <-.
+    unfold file_eq; cbn [f_opts f_meta f_diff]. rewrite msec_eq_perturb; auto. kill_andb.
+Qed.
+
+(* preamble text and diff bytes: assignment through the typed attributes "preamble" / "diff" *)
+Definition pre_at (p : path) (t : dtree) : option (option text) :=
+  match p with
+  | PMain => Some (p_content (d_pre t))
+  | PChange ci => match nth_error (d_changes t) ci with Some c => Some (p_content (c_pre c)) | None => None end
+  | PFile _ _ => None
+  end.
+Definition diff_at (p : path) (t : dtree) : option (option bytes) :=
+  match p with
+  | PFile ci fi => match nth_error (d_changes t) ci with
+                   | Some c => match nth_error (c_files c) fi with Some f => Some (x_content (f_diff f)) | None => None end
+                   | None => None
+                   end
+  | _ => None
+  end.
+Lemma opt_text_neq : forall a b, a <> b -> opt_text_eq a b = false.
+Proof. intros a b N. destruct (opt_text_eq a b) eqn:E; auto. apply opt_text_eq_iff in E. contradiction. Qed.
+Lemma opt_bytes_neq : forall a b, a <> b -> opt_bytes_eq a b = false.
+Proof. intros a b N. destruct (opt_bytes_eq a b) eqn:E; auto. apply opt_bytes_eq_iff in E. contradiction. Qed.
+
+Theorem C19_perturb_preamble : forall p txt t t' old,
+  set_at p (B "preamble") (WStr txt) t = Some (Ok t') -> pre_at p t = Some old -> old <> Some txt -> tree_eq t t' = false.
+Proof.
+  intros p txt t t' old H O N. destruct p as [|ci|ci fi]; cbn [pre_at] in O; try discriminate.
+  - injection O as <-. change (Some (Ok {| d_opts := d_opts t; d_pre := {| p_opts := p_opts (d_pre t); p_content := Some txt |};
+                                       d_meta := d_meta t; d_changes := d_changes t |}) = Some (Ok t')) in H.
+    injection H as <-. unfold tree_eq, psec_eq; cbn. rewrite opt_text_neq; auto. kill_andb.
+  - cbn [set_at] in H. eapply on_change_neq; eauto. intros c c' M G. rewrite M in O. injection O as <-.
+    change (Ok {| c_opts := c_opts c; c_pre := {| p_opts := p_opts (c_pre c); p_content := Some txt |};
+                  c_meta := c_meta c; c_files := c_files c |} = Ok c') in G.
+    injection G as <-. unfold change_eq, psec_eq; cbn. rewrite opt_text_neq; auto. kill_andb.
+Qed.
+Theorem C19_perturb_diff : forall p b t t' old,
+  set_at p (B "diff") (WBytes b) t = Some (Ok t') -> diff_at p t = Some old -> old <> Some b -> tree_eq t t' = false.
+Proof.
+  intros p b t t' old H O N. destruct p as [|ci|ci fi]; cbn [diff_at] in O; try discriminate.
+  cbn [set_at] in H. eapply on_file_neq; eauto. intros c f f' M1 M2 G. rewrite M1, M2 in O. injection O as <-.
+  change (Ok {| f_opts := f_opts f; f_meta := f_meta f; f_diff := {| x_opts := x_opts (f_diff f); x_content := Some b |} |} = Ok f') in G.
+  injection G as <-. unfold file_eq, dsec_eq; cbn. rewrite opt_bytes_neq; auto. kill_andb.
+Qed.
+(* assignment of an option through a typed attribute is opt_put_at on the corresponding section, so C19_perturb_option
+   applies to it: stated for the tree's own attributes, the others follow the same way from C19_set_ok_* *)
+Theorem C19_perturb_typed_main : forall t name v t' k,
+  set_tree_attr t name v = Ok t' -> (name = B "encoding" \/ name = B "version") -> k = name ->
+  cond_opt k v (d_opts t) -> tree_eq t t' = false.
+Proof.
+  intros t name v t' k H [->| ->] -> C; unfold set_tree_attr in H; cbn [beq list_eqb B String.list_byte_of_string] in H.
+  - apply set_option_bind in H as [_ ->]. unfold tree_eq; cbn. rewrite (dopts_eq_perturb (d_opts t)); auto.
+  - change (beq (B "version") (B "encoding")) with false in H. change (beq (B "version") (B "version")) with true in H.
+    cbv iota in H. apply set_option_bind in H as [_ ->]. unfold tree_eq; cbn. rewrite (dopts_eq_perturb (d_opts t)); auto.
+Qed.
+
+(* ---- C19_eq_bytes_refuted: == is Python's, so True == 1; the serialisations differ ---- *)
+Definition wit_meta (j : json) : dtree :=
+  {| d_opts := d_opts new_tree; d_pre := new_psec;
+     d_meta := {| m_opts := m_opts new_msec; m_content := [(skey "a", j)] |}; d_changes := [] |}.
+Theorem C19_eq_bytes_refuted : exists a b ba bb,
+  tree_eq a b = true /\ dom_write a = Ok ba /\ dom_write b = Ok bb /\ ba <> bb.
+Proof.
+  exists (wit_meta (JInt 1)), (wit_meta (JBool true)). eexists. eexists.
+  split; [vm_compute; reflexivity|]. split; [vm_compute; reflexivity|]. split; [vm_compute; reflexivity|]. discriminate.
+Qed.
+(* the same through an option: a raw options['indent'] = True against 1 *)
+Definition wit_pre (v : wv) : dtree :=
+  {| d_opts := d_opts new_tree; d_pre := {| p_opts := [(B "indent", v)]; p_content := Some (skey "hello") |};
+     d_meta := new_msec; d_changes := [] |}.
+Theorem C19_eq_bytes_refuted_option : exists a b ba bb,
+  tree_eq a b = true /\ dom_write a = Ok ba /\ dom_write b = Ok bb /\ ba <> bb.
+Proof.
+  exists (wit_pre (WInt 1)), (wit_pre (WBool true)). eexists. eexists.
+  split; [vm_compute; reflexivity|]. split; [vm_compute; reflexivity|]. split; [vm_compute; reflexivity|]. discriminate.
+Qed.
+(* and, without any boolean, through the ORDER of raw option keys: the DOM writer renames 'type' to 'diff_type' in a
+   dict comprehension, so when both keys are present the later one wins, while == ignores the order *)
+Definition wit_order (o : dopts) : dtree :=
+  {| d_opts := d_opts new_tree; d_pre := new_psec; d_meta := new_msec;
+     d_changes := [ {| c_opts := []; c_pre := new_psec; c_meta := new_msec;
+                       c_files := [ {| f_opts := []; f_meta := new_msec;
+                                       f_diff := {| x_opts := o; x_content := Some (B "xyz") |} |} ] |} ] |}.
+Theorem C19_eq_bytes_refuted_order : exists a b ba bb,
+  tree_eq a b = true /\ dom_write a = Ok ba /\ dom_write b = Ok bb /\ ba <> bb.
+Proof.
+  exists (wit_order [(B "type", S_ "text"); (B "diff_type", S_ "binary")]),
+         (wit_order [(B "diff_type", S_ "binary"); (B "type", S_ "text")]). eexists. eexists.
+  split; [vm_compute; reflexivity|]. split; [vm_compute; reflexivity|]. split; [vm_compute; reflexivity|]. discriminate.
+Qed.
